@@ -272,6 +272,21 @@ pub fn main_run(args: &[String]) -> i32 {
         let has_summary = lines.iter().any(|l| l["type"] == "summary");
         if !status.success() || !has_summary {
             let he = lines.iter().find(|l| l["type"] == "harness_error");
+            // crash world: a worker that dies is the observation. Re-run the scenario it was
+            // executing alone, in a child process; if the child dies as well that is the violation.
+            if prop == "C11" && he.is_none() {
+                if let Ok(b) = serde_json::from_str::<serde_json::Value>(last_begin) {
+                    let (batch, run) = (b["batch"].as_str().unwrap_or("").to_string(), b["run"].as_u64().unwrap_or(0));
+                    let mut scn = props::generate(&prop, seed, &batch, run);
+                    scn.knobs.push(("isolated".into(), 1));
+                    let c = props::check(&scn);
+                    if let Some(v) = c.violations.into_iter().next() {
+                        total.violations += 1;
+                        violations.push((batch, run, v, scn));
+                        continue;
+                    }
+                }
+            }
             harness_errors.push(match he {
                 Some(l) => format!("worker {w}: {} (batch {} run {})", l["error"], l["batch"], l["run"]),
                 None => format!("worker {w} died with {status} while executing {last_begin}"),
